@@ -303,6 +303,7 @@ def run_impl(case: dict) -> Tuple[List[str], List[str]]:
                 return _real(self, frame=frame, from_network_interface=from_network_interface)
 
             raised = False
+            raised_other = None
             ttl_before = frame.ip.ttl
             with mock.patch.object(type(x), "receive_frame", node_rx):
                 try:
@@ -310,6 +311,11 @@ def run_impl(case: dict) -> Tuple[List[str], List[str]]:
                 except AttributeError:
                     raised = True
                     ret = None
+                except Exception as e:  # any OTHER exception out of the element's frame processing: recorded in the answer (the model
+                    # never answers so: the trace disagrees and is reported with the frame as replay), the trace goes on
+                    raised = True
+                    ret = None
+                    raised_other = type(e).__name__
             if reached["v"]:
                 gate = "up"
             elif not iface.enabled:
@@ -323,7 +329,7 @@ def run_impl(case: dict) -> Tuple[List[str], List[str]]:
             order = ["router", "extIn", "extOut", "intIn", "intOut", "dmzIn", "dmzOut"]
             acls = sorted(rec["acls"], key=lambda s: order.index(s.split(":")[0]))
             out.append(f"gate={gate} acls={','.join(acls)} events={','.join(rec['events'])} "
-                       f"sent={','.join(map(str, rec['sent']))}" + (" raised" if raised else ""))
+                       f"sent={','.join(map(str, rec['sent']))}" + (f" raised:{raised_other}" if raised_other else " raised" if raised else ""))
             lines.append(f"frame {op['port']} {op['src_mac']} {dmac} {op['proto']} {op['src_ip']} {op['dst_ip']} {o(op['sport'])} "
                          f"{o(op['dport'])} {op['ttl']} {1 if op['arp'] else 0} fwd={o(op['fwd'])} nic={o(op['nic'])} "
                          f"reply={1 if op['reply'] else 0}")
